@@ -1410,7 +1410,7 @@ def _set_decorators() -> Dict[str, Callable[[_FN], _FN]]:
 
     def difference_update(fn):
         def difference_update(self, value):
-            for item in value:
+            for item in list(value):
                 self.discard(item)
 
         _tidy(difference_update)
@@ -1420,7 +1420,7 @@ def _set_decorators() -> Dict[str, Callable[[_FN], _FN]]:
         def __isub__(self, value):
             if not _set_binops_check_strict(self, value):
                 return NotImplemented
-            for item in value:
+            for item in list(value):
                 self.discard(item)
             return self
 
